@@ -411,6 +411,7 @@ pub fn run_history_opt(rng: &mut Rng, init: Init, nunits: usize, oneshot: bool, 
     runner.storage = Some(storage.clone());
     runner.app_set = Some(app_set.clone());
     crate::sm::LOCKS.with(|l| *l.borrow_mut() = Some((storage.clone(), app_set.clone())));
+    let exec_tags = format!("{}{}{}", if runner.strict { "strict/" } else { "" }, if runner.fresh { "fresh/" } else { "" }, if runner.contend.is_some() { "contend/" } else { "" });
     // all unit environments are generated up front (the hub switches to the next one by itself at
     // each unit boundary); reboot-wait steps stay symbolic until run time
     let mut envs: Vec<(UnitEnv, String)> = vec![];
@@ -458,7 +459,7 @@ pub fn run_history_opt(rng: &mut Rng, init: Init, nunits: usize, oneshot: bool, 
             let s = match rng.below(5) { 0 => RStep::Fire30, 1 => RStep::Ctl(1000 * k + 300 + rplan.len(), rng.chance(1, 2)), _ => RStep::FirePing(rng.below(2) as usize) };
             rplan.push_back((s, dt(rng)));
         }
-        envs.push((env, path));
+        envs.push((env, format!("{}{}", exec_tags, path)));
         rplans.push(rplan);
     }
     // two requests queued at one wait, the first refused by the policy: the second is taken at the next wait (and put to
@@ -651,6 +652,28 @@ pub fn run_history_opt(rng: &mut Rng, init: Init, nunits: usize, oneshot: bool, 
     (cases, Carry { init, committed, wall, exchanges })
 }
 
+/// What a unit exercised, for the evidence file's histogram: script features (from the class path) and phases reached (from
+/// the implementation's trace).
+fn unit_features(class: &str, output: &str) -> Vec<&'static str> {
+    let mut v = vec![];
+    for (tag, name) in [("/ctl/", "woken-by-request"), ("partial+ctl/", "request-after-partial-firing"), ("/timers/", "woken-by-timers"),
+        ("race-ctl/", "race-request-won"), ("race-timer/", "race-timers-won"), ("queued2/", "two-requests-queued"), ("rrace/", "reboot-wait-timer+request"),
+        ("dropctl-outer/", "handles-dropped-at-wait"), ("dropctl-reboot/", "handles-dropped-in-reboot-wait"), ("contended-start/", "app-set-lock-held-at-first-poll"),
+        ("strict/", "strict-executor"), ("fresh/", "fresh-waker-per-poll"), ("contend/", "embedder-lock-after-event"), ("crash-restart", "first-unit-after-a-crash"), ("Stalled", "script-ended-while-waiting")] {
+        if class.contains(tag) { v.push(name); }
+    }
+    let has = |p: &str| output.starts_with(p) || output.contains(&format!("\t{}", p));
+    for (pfx, name) in [("P allowed", "policy-asked"), ("H uc", "update-check-sent"), ("H ev", "event-report-sent"), ("H ping", "ping-sent"), ("I plan", "plan-made"),
+        ("P canstart", "can-start-asked"), ("I install", "install-run"), ("E progress", "progress-delivered"), ("P rebootneeded", "reboot-needed-asked"),
+        ("P rebootallowed", "reboot-wait-entered"), ("I reboot", "reboot-called"), ("M waitedreboot", "waited-for-reboot-reported"),
+        ("R ", "request-answered"), ("E proto", "protocol-state-announced"), ("S commit -> err", "commit-failed"), ("S set", "storage-written")] {
+        if has(pfx) { v.push(name); }
+    }
+    if output.contains(" -> err") && output.contains("S ") { v.push("storage-failure"); }
+    if output == "panic" { v.push("panic"); }
+    v
+}
+
 pub fn run(o: &Opts, rng: &mut Rng) -> Sink {
     let mut sink = Sink::new("sm");
     if o.only_corpus { return sink; }
@@ -698,6 +721,7 @@ pub fn run(o: &Opts, rng: &mut Rng) -> Sink {
         match res {
             Ok(cases) => for c in cases {
                 sink.bump(&format!("gen:{}", c.class.split('/').next().unwrap()));
+                for f in unit_features(&c.class, &c.output) { sink.bump(&format!("feat:{}", f)); }
                 let out = c.output;
                 sink.case(c.input, Some(c.class), move || out);
             },
